@@ -11,13 +11,19 @@ known finding:  failed-commit-dedup-persisted (vplib/c01known.py: 4 scripted his
 search:         after every commit / upgrade / purge the independent validator (vplib/ocflv.py) on every
                 object and on the storage root, plus the structural clauses of the property
 """
-from vplib import c01known, commitabs, common, histcheck, histeval
+import os
+
+from vplib import c01known, commitabs, common, hist, histcheck, histeval
 
 
 def hook(run, st):
     msgs = []
-    if st.op["op"] in ("commit", "upgrade_object", "purge") and st.rc == "ok":
+    if (st.op["op"] in ("commit", "upgrade_object", "purge") and st.rc == "ok") or st.op["op"] == "commit":
+        # (a refused commit must leave a valid repository too: hostile object roots, refusals after partial work)
         msgs = histeval.c01_oracle(run, st)
+        beside = sorted(set(os.listdir(run.r.sc.base)) - {"root", "src", "stg"})
+        if beside:
+            msgs.append("entries created beside the storage root: %r" % (beside,))
     elif st.rc == "panic":
         msgs = ["operation panicked: %r" % (st.res.get("panic"),)]
     st.findings["C01"] = msgs
@@ -36,5 +42,5 @@ def run(ctx):
     ctx.assumptions.append("file-system clauses: proved for the fault-free commit of the protocol model (C01_commit_yields_written_object, C01_reachable_tree_valid) under commit_pre + commit_pre_tree, which the correspondence evaluates on every real pre-state; storage root files, layout placement, purge and operations under faults are decided by the direct search on executed histories (and by C04/C05/C11/C12)")
     return histcheck.run_history_check(
         ctx, proof, hook2, n, length, final_commit=True, extra_evidence=fs,
-        known_classifier=c01known.classifier, scripted=c01known.scenarios(),
+        known_classifier=c01known.classifier, scripted=c01known.scenarios() + hist.hostile_root_scenarios(),
         rule="adaptive random histories over 3 object ids x rotating configurations (8 layout variants, spec 1.0/1.1, sha256/512, content dir, padding, external staging, fresh handle); distinct = distinct (operation, arguments, result class); NotFound steps are trivial")
